@@ -9,6 +9,7 @@ import (
 	"go/token"
 	"go/types"
 	"sort"
+	"strconv"
 	"strings"
 )
 
@@ -440,9 +441,13 @@ func (u *Unit) closure(lit *ast.FuncLit, env *Env) Value {
 		// specifications may name the function value created for literal N in this activation: _litN
 		env.alias[fmt.Sprintf("_lit%d", ord)] = clo
 		env.aliasTy[fmt.Sprintf("_lit%d", ord)] = ty
+		if n, ok := litNames(owner.Decl)[lit]; ok {
+			env.alias["_lit_"+n] = clo
+			env.aliasTy["_lit_"+n] = ty
+		}
 	}
 	if hasOrd {
-		if blk := u.Prog.Contracts.Get(owner.Key, fmt.Sprintf("lit %d", ord)); blk != nil {
+		if blk := u.Prog.litBlock(owner, lit, ord); blk != nil {
 			blk.Bound = true
 			li.blk = blk
 			if blk.Opts["effects"] == "" && sig.Results().Len() > 0 && !u.effectfulCallbacks() {
@@ -906,6 +911,71 @@ func numberLoops(fd *ast.FuncDecl) (map[ast.Stmt]int, map[*ast.FuncLit]int) {
 		return true
 	})
 	return loops, lits
+}
+
+// a literal that is the right-hand side of "name := func..." / "name = func..." / "var name = func..." can be addressed by
+// that name in the contract file ("lit name"), which survives the insertion or removal of other literals
+func litNames(fd *ast.FuncDecl) map[*ast.FuncLit]string {
+	names := map[*ast.FuncLit]string{}
+	if fd.Body == nil {
+		return names
+	}
+	count := map[string]int{}
+	ast.Inspect(fd.Body, func(n ast.Node) bool {
+		switch x := n.(type) {
+		case *ast.AssignStmt:
+			if len(x.Lhs) == len(x.Rhs) {
+				for i, r := range x.Rhs {
+					if fl, ok := unparen(r).(*ast.FuncLit); ok {
+						if id, ok := x.Lhs[i].(*ast.Ident); ok && id.Name != "_" {
+							names[fl] = id.Name
+							count[id.Name]++
+						}
+					}
+				}
+			}
+		case *ast.ValueSpec:
+			if len(x.Names) == len(x.Values) {
+				for i, r := range x.Values {
+					if fl, ok := unparen(r).(*ast.FuncLit); ok {
+						names[fl] = x.Names[i].Name
+						count[x.Names[i].Name]++
+					}
+				}
+			}
+		}
+		return true
+	})
+	for fl, n := range names {
+		if count[n] > 1 {
+			delete(names, fl) // ambiguous
+		}
+	}
+	return names
+}
+
+// the contract block of a literal: by name when it has one, else by ordinal
+func (p *Program) litBlock(owner *FuncInfo, lit *ast.FuncLit, ord int) *Block {
+	if n, ok := litNames(owner.Decl)[lit]; ok {
+		if b := p.Contracts.Get(owner.Key, "lit "+n); b != nil {
+			return b
+		}
+	}
+	return p.Contracts.Get(owner.Key, fmt.Sprintf("lit %d", ord))
+}
+
+// the literal a block header "lit X" refers to (X a name or an ordinal)
+func litBySub(fi *FuncInfo, sub string) *ast.FuncLit {
+	x := strings.TrimSpace(strings.TrimPrefix(sub, "lit "))
+	if n, err := strconv.Atoi(x); err == nil {
+		return litByOrdinal(fi, n)
+	}
+	for fl, n := range litNames(fi.Decl) {
+		if n == x {
+			return fl
+		}
+	}
+	return nil
 }
 
 // ---------------------------------------------------------------------------------------------
